@@ -51,3 +51,36 @@ if notes:
         out.append('* **%s**: %s' % (k, notes[k]))
 open(os.path.join(V, 'seeded', 'SUMMARY.md'), 'w').write('\n'.join(out) + '\n')
 print('rows', len(rows), dict(tot))
+
+# ---------------------------------------------------------------- behaviour-preserving changes
+bp = os.path.join(V, 'seeded', 'benign_results.tsv')
+if os.path.exists(bp):
+    per = collections.defaultdict(dict)
+    first = {}
+    for l in open(bp):
+        f = l.rstrip('\n').split('\t')
+        if len(f) >= 4:
+            per[f[0]][f[1]] = f[2]
+            if f[2] != '0':
+                first.setdefault((f[0], f[1]), f[3])
+    out = ['# Behaviour-preserving changes (false-alarm test)', '',
+           'Changes written by sub-agents that were given all 19 property statements and asked for realistic commits that',
+           'keep every one of them (`seeded/benign/<name>/patch.diff`, `meta.json`). Every quick check is run on each with the',
+           'change applied in a scratch worktree (`tools/benign_all.sh`); this table is the run on the final machinery.', '',
+           '| change | what it is | checks with exit 0 | exit 1 (alarm) | exit 2 (inconclusive) |', '|---|---|---|---|---|']
+    for n in sorted(per):
+        try:
+            m = json.load(open(os.path.join(V, 'seeded', 'benign', n, 'meta.json')))
+        except Exception:
+            m = {}
+        summ = (m.get('summary') or '').replace('\n', ' ').replace('|', '/')[:200]
+        res = per[n]
+        ok = [k for k in res if res[k] == '0']
+        al = sorted(k for k in res if res[k] == '1')
+        inc = sorted(k for k in res if res[k] not in ('0', '1'))
+        out.append('| %s | %s | %d/%d | %s | %s |' % (n, summ, len(ok), len(res), ', '.join(al) or '-', ', '.join(inc) or '-'))
+    hist = os.path.join(V, 'seeded', 'BENIGN_HISTORY.md')
+    if os.path.exists(hist):
+        out += ['', open(hist).read().rstrip('\n')]
+    open(os.path.join(V, 'seeded', 'BENIGN.md'), 'w').write('\n'.join(out) + '\n')
+    print('benign', {n: sum(1 for k in per[n] if per[n][k] != '0') for n in sorted(per)})
